@@ -260,6 +260,11 @@ class _Handler(BaseHTTPRequestHandler):
                 time.sleep(0.002)
                 self.close_connection = True
                 _rst(self.connection)
+            elif o == "stall":  # part of the body, then silence for longer than the client's read timeout (c14_drive.READ_TIMEOUT)
+                self._head(200, len(body), close=True)
+                self.wfile.write(part)
+                self.wfile.flush()
+                time.sleep(STALL_SECONDS)
             elif o == "short":  # full Content-Length, body ends early, orderly close
                 self._head(200, len(body), close=True)
                 self.wfile.write(part)
@@ -291,5 +296,6 @@ def start_server():
     return srv
 
 
-FAULTS = ["404", "500", "reset-pre", "reset-mid", "short", "wrong-short", "wrong-long", "wrong-empty", "slow", "ok-nocl"]
-INCOMPLETE = ("reset-mid", "short")  # body of an HTTP 200 ends before Content-Length bytes arrived
+FAULTS = ["404", "500", "reset-pre", "reset-mid", "short", "wrong-short", "wrong-long", "wrong-empty", "slow", "ok-nocl", "stall"]
+INCOMPLETE = ("reset-mid", "short", "stall")  # body of an HTTP 200 ends before Content-Length bytes arrived (or stops arriving)
+STALL_SECONDS = 0.7
